@@ -240,7 +240,7 @@ pub fn check_pair(ctx: &mut Ctx, a: &St, b: &St) {
 pub fn params(tier: &str) -> (usize, usize, usize, usize) {
   // (depth, from_iter tuple length, append operands, pair window)
   if tier == "thorough" {
-    (3, 2, 90, 8000)
+    (3, 2, 40, 6000)
   } else {
     (3, 2, 24, 2500)
   }
